@@ -9,9 +9,18 @@
        from a DA double (GetIDs + batched Get through types.RetrieveWithHelpers); observed: how many of its blobs
        got a DA-included mark, and the (first id, count) of every Get call.  The blob list is written run-length
        ([rl]) and expanded here.
+   (A, continued) the tie of transaction DATA to the signed header, in the admission cases:
+       [ac_val]: the real types.Validate(header, data) and Manager.execValidate(state, header, data) on a genuine
+       signed header of the aggregator's chain and data whose transaction list is a near miss of the proposer's
+       (the same bytes cut at other boundaries, a boundary moved by one byte, empty transactions added, all merged,
+       reordered, rotated, truncated, duplicated, one bit flipped, protobuf framing inside a transaction, an exact
+       copy), with and without Metadata;
+       [ac_cmt]: the real DACommitment of two such byte-level transaction lists: are they equal; and the bytes
+       leafPrefix ++ Data{Txs}.MarshalBinary() of the first, with whether their SHA-256 IS its DACommitment
+       — compared with Model/AdmissionCommit.v (commit_preimage).
    [mismatches] lists the cases on which the model disagrees (index, what differs). *)
 From Coq Require Import NArith ZArith List Bool.
-From Verif Require Import Model.Types Model.Admission.
+From Verif Require Import Model.Types Model.Admission Model.AdmissionCommit.
 Import ListNotations.
 
 Definition bool_eqb (a b : bool) : bool := if a then b else negb b.
@@ -55,7 +64,25 @@ Definition check_p2p (now : Z) (o : p2p_obs) : bool :=
   (if po_validate o then verdict_eqb (p2p_verify now (po_trusted o) (po_untrusted o)) (po_verdict o) else true) &&
   bool_eqb (hstore_accepts now [po_trusted o] (po_untrusted o)) (po_stored o).
 
-Record adm_case := { ac_gen : genesis; ac_now : Z; ac_blobs : list (blob * da_obs); ac_p2p : list p2p_obs }.
+(* two byte-level transaction lists and what the real code says about their commitments *)
+Record cmt_obs := { co_a : list btx; co_b : list btx;
+                    co_eq : bool;            (* bytes.Equal(Data{a}.DACommitment(), Data{b}.DACommitment()) *)
+                    co_pre : list byte;      (* leafPrefix ++ Data{Txs: a}.MarshalBinary(), from the real marshaller *)
+                    co_pre_ok : bool }.      (* sha256(co_pre) == Data{a}.DACommitment() *)
+Definition check_cmt (o : cmt_obs) : bool :=
+  bool_eqb (same_commitment (co_a o) (co_b o)) (co_eq o) &&
+  bytes_eqb (commit_preimage (co_a o)) (co_pre o) && co_pre_ok o.
+
+(* a signed header, data, and the answers of types.Validate / execValidate *)
+Record val_obs := { vo_state : cstate; vo_hdr : sheader; vo_data : data;
+                    vo_validate : bool;      (* types.Validate(header, data) == nil *)
+                    vo_exec : bool }.        (* Manager.execValidate(state, header, data) == nil *)
+Definition check_val (o : val_obs) : bool :=
+  bool_eqb (validate_pair (vo_hdr o) (vo_data o)) (vo_validate o) &&
+  bool_eqb (validate (vo_state o) (vo_hdr o) (vo_data o)) (vo_exec o).
+
+Record adm_case := { ac_gen : genesis; ac_now : Z; ac_blobs : list (blob * da_obs); ac_p2p : list p2p_obs;
+                     ac_cmt : list cmt_obs; ac_val : list val_obs }.
 
 Record e2e_case := {
   ec_gen : genesis; ec_now : Z; ec_tb : exec_tbl; ec_app0 : root; ec_t0 : Z;
@@ -86,12 +113,15 @@ Fixpoint height_calls (g : genesis) (now : Z) (tb : exec_tbl) (s : nstate) (l : 
   end.
 
 (* 1 = a DA blob observable differs, 2 = a gossip observable differs, 3 = per-item outcomes differ,
-   4 = end state differs, 5 = the Get calls of a DA height differ *)
+   4 = end state differs, 5 = the Get calls of a DA height differ, 6 = a commitment observable differs (equality of two
+   commitments / the hashed bytes), 7 = types.Validate / execValidate on a (header, data) pair differs *)
 Definition check_case (c : case) : list N :=
   match c with
   | CAdm a =>
       (if forallb (fun e => check_blob (ac_gen a) (fst e) (snd e)) (ac_blobs a) then [] else [1%N]) ++
-      (if forallb (check_p2p (ac_now a)) (ac_p2p a) then [] else [2%N])
+      (if forallb (check_p2p (ac_now a)) (ac_p2p a) then [] else [2%N]) ++
+      (if forallb check_cmt (ac_cmt a) then [] else [6%N]) ++
+      (if forallb check_val (ac_val a) then [] else [7%N])
   | CE2E e =>
       let '(s, outs) := node_run (ec_gen e) (ec_now e) (ec_tb e) (node_init (ec_gen e) (ec_app0 e) (ec_t0 e)) (ec_items e) in
       (if list_eqb N.eqb outs (ec_outs e) then [] else [3%N]) ++
